@@ -858,6 +858,31 @@ def r01_13_extras_partition(ctx, rid='R01.13'):
         return
     res = fl.result
     classes = [(k, ink) for k in ('_yatiml_extra', 'self', 'some_key') for ink in (False, True)]
+    # key classes that cannot occur: names that every caller has already taken out of the list it passes (a filter
+    # `[n for n in <parameters> if n not in ('self', '_yatiml_extra')]` at the call site)
+    sites = []
+    for cf in P.yatiml_functions():
+        if cf.cls is f.fi.cls and cf is not f.fi:
+            for c_ in walk_function(cf.node):
+                if isinstance(c_, ast.Call) and isinstance(c_.func, ast.Attribute) and c_.func.attr.endswith('__split_off_extra_attributes'):
+                    sites.append((fn_of(cf), c_))
+    excluded = None
+    for cf_, c_ in sites:
+        arg = c_.args[1] if len(c_.args) > 1 else next((k_.value for k_ in c_.keywords if k_.arg == known), None)
+        out_here = set()
+        for src_ in (S._flow_sources(cf_, arg) if arg is not None else []):
+            if isinstance(src_, ast.ListComp) and len(src_.generators) == 1 and isinstance(src_.generators[0].target, ast.Name) \
+                    and isinstance(src_.elt, ast.Name) and src_.elt.id == src_.generators[0].target.id:
+                from ..dictflow import _kname, _and, TRUE
+                cnd = TRUE
+                for i_ in src_.generators[0].ifs:
+                    cnd = _and(cnd, _kname(i_, src_.elt.id))
+                out_here = {k for k in ('_yatiml_extra', 'self') if cond_truth(cnd, k, {}) is False}
+        excluded = out_here if excluded is None else (excluded & out_here)
+    excluded = excluded or set()
+    if excluded:
+        classes = [(k, ink) for k, ink in classes if not (ink and k in excluded)]
+        r.ok('every caller passes the parameter names without %s: those cannot be "in the list"' % sorted(excluded))
 
     # copies of the parameter list that are only asked for membership (`known_names = set(known_attrs)`) answer the same
     same_members = {known}
